@@ -1,10 +1,12 @@
 package props
 
 import (
+	"bytes"
 	"encoding/json"
 	"fmt"
 	"io"
 	"os"
+	"regexp"
 	"runtime"
 	"sort"
 	"strings"
@@ -12,6 +14,7 @@ import (
 	"time"
 
 	coraza "github.com/corazawaf/coraza/v3"
+	"github.com/corazawaf/coraza/v3/debuglog"
 	"github.com/corazawaf/coraza/v3/experimental/plugins"
 	"github.com/corazawaf/coraza/v3/experimental/plugins/plugintypes"
 	"github.com/corazawaf/coraza/v3/internal/corazawaf"
@@ -54,6 +57,7 @@ SecRule REQUEST_HEADERS:x-do "@contains ctlAuditEngine" "id:1023,phase:1,pass,ct
 SecRule REQUEST_HEADERS:x-do "@contains ctlAuditParts" "id:1024,phase:1,pass,ctl:auditLogParts=-C"
 SecRule REQUEST_HEADERS:x-do "@contains ctlForceReqBody" "id:1025,phase:1,pass,ctl:forceRequestBodyVariable=On"
 SecRule REQUEST_HEADERS:x-do "@contains ctlRespAccess" "id:1026,phase:1,pass,ctl:responseBodyAccess=Off"
+SecRule REQUEST_HEADERS:x-do "@contains ctlDebugLevel" "id:1030,phase:1,pass,ctl:debugLogLevel=9"
 SecRule REQUEST_HEADERS:x-do "@contains ctlRmId" "id:1027,phase:1,pass,ctl:ruleRemoveById=2001"
 SecRule REQUEST_HEADERS:x-do "@contains ctlRmRange" "id:1028,phase:1,pass,ctl:ruleRemoveById=2100-2199"
 SecRule REQUEST_HEADERS:x-do "@contains ctlRmTarget" "id:1029,phase:1,pass,ctl:ruleRemoveTargetById=2002;ARGS:a"
@@ -129,7 +133,43 @@ type c05Outcome struct {
 	ReqBody  string
 	RespBody string
 	Audit    []string
+	Debug    []string // what the transaction wrote to the WAF's debug log (the WAF's own level is 0: nothing)
 }
+
+// the debug log of each WAF of this check: an in-memory writer, level 0 (nothing is logged unless a
+// transaction raises its own level with ctl:debugLogLevel)
+type c05Buf struct {
+	mu sync.Mutex
+	b  bytes.Buffer
+}
+
+func (b *c05Buf) Write(p []byte) (int, error) {
+	b.mu.Lock()
+	defer b.mu.Unlock()
+	return b.b.Write(p)
+}
+func (b *c05Buf) mark() int { b.mu.Lock(); defer b.mu.Unlock(); return b.b.Len() }
+func (b *c05Buf) since(m int) string {
+	b.mu.Lock()
+	defer b.mu.Unlock()
+	if m > b.b.Len() {
+		return ""
+	}
+	return string(b.b.Bytes()[m:])
+}
+
+var c05Bufs sync.Map // coraza.WAF -> *c05Buf
+
+func c05NewWAF(text string) (coraza.WAF, error) {
+	buf := &c05Buf{}
+	w, err := coraza.NewWAF(coraza.NewWAFConfig().WithDebugLogger(debuglog.Default().WithOutput(buf).WithLevel(debuglog.LevelNoLog)).WithDirectives(text))
+	if err == nil {
+		c05Bufs.Store(w, buf)
+	}
+	return w, err
+}
+
+var c05DbgMask = regexp.MustCompile(`^\S+ \S+ |tx_id="[^"]*"`)
 
 func (o c05Outcome) key() string { b, _ := json.Marshal(o); return string(b) }
 
@@ -150,6 +190,12 @@ func c05RunTx(w coraza.WAF, id string, tokens []string, probeDeny bool) (c05Outc
 			}
 		}
 		return false
+	}
+	var dbg *c05Buf
+	dbgMark := 0
+	if b, ok := c05Bufs.Load(w); ok {
+		dbg = b.(*c05Buf)
+		dbgMark = dbg.mark()
 	}
 	tx := w.NewTransactionWithID(id)
 	itx := tx.(*corazawaf.Transaction)
@@ -228,6 +274,16 @@ func c05RunTx(w coraza.WAF, id string, tokens []string, probeDeny bool) (c05Outc
 		_ = tx.Close()
 	}
 	o.Audit = c05Records(id)
+	if dbg != nil {
+		for _, l := range strings.Split(dbg.since(dbgMark), "\n") {
+			if l != "" {
+				o.Debug = append(o.Debug, c05DbgMask.ReplaceAllString(l, ""))
+			}
+		}
+		if len(o.Debug) > 6 {
+			o.Debug = append(o.Debug[:6], fmt.Sprintf("... %d lines", len(o.Debug)))
+		}
+	}
 	return o, itx, kept, dirtySnap, dirtyVars
 }
 
@@ -257,7 +313,7 @@ func fieldOf(key string) string {
 
 // C05: transactions are isolated from earlier transactions on the same WAF.
 func C05(run *vf.Run) {
-	run.Rule = "Pool.tla: a pooled Transaction object as a record of fields (default/dirty), predecessor behaviours as tokens that dirty fields, Close and NewTransaction with the reset lists of the code; TLC checks FreshAfterNew and ReadersDead over all histories of predecessors (one predecessor performing up to 2 - thorough 3 - behaviours, thorough also two predecessors performing one each) (match, setvar, capture, deny in phase 1-4, every ctl override, pending allow / skip / skipAfter, body spill, response body, no ProcessLogging, Close twice, kept reader, transformation cache) and emits every history; each history is replayed on a real WAF on one goroutine (the pool really hands the same object back: pointer identity is checked), then (1) the reflective snapshot of the recycled object right after NewTransaction is compared field by field with a brand-new transaction, (2) a probe transaction is run on the used WAF and on a fresh WAF and the full observable outcome (per-phase interruptions, fired rules, TX dump, body reader contents, audit record) is compared, (3) a reader kept from before Close must yield no data, (4) the dirty fields observed after each predecessor must lie within Dirties of Pool.tla (binding of the model). Non-trivial = history whose recycled object was really reused"
+	run.Rule = "Pool.tla: a pooled Transaction object as a record of fields (default/dirty), predecessor behaviours as tokens that dirty fields, Close and NewTransaction with the reset lists of the code; TLC checks FreshAfterNew and ReadersDead over all histories of predecessors (one predecessor performing up to 2 - thorough 3 - behaviours, thorough also two predecessors performing one each) (match, setvar, capture, deny in phase 1-4, every ctl override including the debug log level, pending allow / skip / skipAfter, body spill, response body, no ProcessLogging, Close twice, kept reader, transformation cache) and emits every history; each history is replayed on a real WAF on one goroutine (the pool really hands the same object back: pointer identity is checked), then (1) the reflective snapshot of the recycled object right after NewTransaction is compared field by field with a brand-new transaction, (2) a probe transaction is run on the used WAF and on a fresh WAF and the full observable outcome (per-phase interruptions, fired rules, TX dump, body reader contents, audit record, lines written to the WAF's debug log - the WAF's own level is 0, a predecessor may raise its own with ctl:debugLogLevel) is compared, (3) a reader kept from before Close must yield no data, (4) the dirty fields observed after each predecessor must lie within Dirties of Pool.tla (binding of the model). Non-trivial = history whose recycled object was really reused"
 	run.Exhaustive = true
 	run.Assume("sync.Pool hands the object back on the same goroutine when no GC intervenes (checked per history by pointer identity; histories where it does not are counted as not exercised)")
 	c05Once.Do(func() {
@@ -350,12 +406,12 @@ func C05(run *vf.Run) {
 					addFail("panic", fmt.Sprint(r), h)
 				}
 			}()
-			w, err := coraza.NewWAF(coraza.NewWAFConfig().WithDirectives(text))
+			w, err := c05NewWAF(text)
 			if err != nil {
 				run.Inconclusive("C05 configuration rejected: %v", err)
 				return
 			}
-			fresh, _ := coraza.NewWAF(coraza.NewWAFConfig().WithDirectives(text))
+			fresh, _ := c05NewWAF(text)
 			var last *corazawaf.Transaction
 			var kept io.Reader
 			for pi, toks := range h {
@@ -489,6 +545,7 @@ func dedupStr(s []string) []string {
 }
 
 func closeAny(w coraza.WAF) {
+	c05Bufs.Delete(w)
 	if c, ok := w.(interface{ Close() error }); ok {
 		_ = c.Close()
 	}
@@ -505,7 +562,7 @@ func c05Binding(run *vf.Run, text string, always map[string]bool) {
 		"ctlEngine": {"RuleEngine", "matchedRules", "detectionOnlyInterruption", "audit"}, "ctlReqAccess": {"RequestBodyAccess"},
 		"ctlReqLimit": {"RequestBodyLimit"}, "ctlAuditEngine": {"AuditEngine"}, "ctlAuditParts": {"AuditLogParts"},
 		"ctlForceReqBody": {"ForceRequestBodyVariable"}, "ctlRespAccess": {"ResponseBodyAccess"}, "ctlRmId": {"ruleRemoveByID"},
-		"ctlRmRange": {"ruleRemoveByIDRanges"}, "ctlRmTarget": {"ruleRemoveTargetByID"}, "allow": {"AllowType"}, "allowRequest": {"AllowType"},
+		"ctlRmRange": {"ruleRemoveByIDRanges"}, "ctlDebugLevel": {"debugLogger"}, "ctlRmTarget": {"ruleRemoveTargetByID"}, "allow": {"AllowType"}, "allowRequest": {"AllowType"},
 		"skip": {"Skip"}, "skipAfter": {"SkipAfter"}, "spill": {"requestBodyBuffer", "variables"}, "respBody": {"responseBodyBuffer", "variables"},
 		"keepReader": {"requestBodyBuffer"}, "tfCache": {"transformationCache"}, "otherArgs": {"variables"},
 	}
